@@ -312,3 +312,55 @@ Proof.
       exact (request_graph_nonempty defs rq Hdefs Hne Hp).
   - exact (features_after_ancestors ord g Hord Hok Hs).
 Qed.
+
+(* ---------- the decidable forms of the request hypotheses are sound ---------- *)
+Theorem defs_okb_sound : forall defs rq, defs_okb defs rq = true -> defs_ok defs rq.
+Proof.
+  intros defs rq H. unfold defs_okb in H.
+  set (order := topo_list (S (List.length defs)) (dins_of defs) (map dname defs) []) in *.
+  apply andb_true_iff in H. destruct H as [H Hcfw]. apply andb_true_iff in H. destruct H as [H Hrq].
+  apply andb_true_iff in H. destruct H as [H Hrqnd]. apply andb_true_iff in H. destruct H as [H Hac].
+  apply andb_true_iff in H. destruct H as [Hnd Hall]. rewrite forallb_forall in Hall, Hac.
+  split; [apply nodupb_NoDup; exact Hnd|]. split; [|split; [|split; [|split; [|split]]]].
+  - intros x y [d [Hd [E Hx]]]. specialize (Hall d Hd). apply andb_true_iff in Hall. destruct Hall as [Hs _].
+    apply subset_incl in Hs. exact (Hs x Hx).
+  - intros d Hd. specialize (Hall d Hd). apply andb_true_iff in Hall. destruct Hall as [_ Hn]. apply nodupb_NoDup. exact Hn.
+  - exists (fun u => match pos u order with Some i => i | None => 0 end).
+    intros x y [d [Hd [E Hx]]]. subst y. specialize (Hac d Hd). rewrite forallb_forall in Hac.
+    exact (before_lt order x (dname d) (Hac x Hx)).
+  - apply nodupb_NoDup. exact Hrqnd.
+  - apply subset_incl. exact Hrq.
+  - intros d e Hd He. destruct defs as [|d0 defs']; [destruct Hd|]. rewrite forallb_forall in Hcfw.
+    pose proof (Hcfw d Hd) as H1. pose proof (Hcfw e He) as H2. apply Nat.eqb_eq in H1, H2. congruence.
+Qed.
+
+Theorem defs_group_dagb_sound : forall defs, NoDup (map dname defs) -> defs_group_dagb defs = true -> defs_group_dag defs.
+Proof.
+  intros defs Hnd H. unfold defs_group_dagb in H.
+  set (order := topo_list (S (List.length (dedupe (map dgrp defs)))) (dgrp_deps defs) (dedupe (map dgrp defs)) []) in *.
+  exists (fun k => match pos k order with Some i => i | None => 0 end).
+  intros d e Hd He Hin Hne. rewrite forallb_forall in H. specialize (H e He). rewrite forallb_forall in H.
+  specialize (H (dname d) Hin). unfold dgrp_of in H. rewrite (def_of_complete defs Hnd d Hd) in H.
+  apply orb_true_iff in H. destruct H as [H|H]; [apply Nat.eqb_eq in H; contradiction|].
+  exact (before_lt order _ _ H).
+Qed.
+
+(* ---------- a non-trivial request used in the examples of Props/PlannerA.v ---------- *)
+(* names: a=0 (root group 0); b=1, c=2 (group 1, inputs a); d=3 (group 2, inputs b, c)  -- a diamond;
+          f1=4 <- a, f2=5 <- f1, f3=6 <- f2, f1 (group 3)                                -- an intra-group chain;
+   requested: d, f3 and f2 (f2 is also a dependency of f3: two different nodes 10 and 11). *)
+Definition ex_defs : list fdef :=
+  [ {| dname := 0; dgrp := 0; dins := [];     dcfw := 1 |};
+    {| dname := 1; dgrp := 1; dins := [0];    dcfw := 1 |};
+    {| dname := 2; dgrp := 1; dins := [0];    dcfw := 1 |};
+    {| dname := 3; dgrp := 2; dins := [1; 2]; dcfw := 1 |};
+    {| dname := 4; dgrp := 3; dins := [0];    dcfw := 1 |};
+    {| dname := 5; dgrp := 3; dins := [4];    dcfw := 1 |};
+    {| dname := 6; dgrp := 3; dins := [5; 4]; dcfw := 1 |} ].
+Definition ex_rq : list nat := [3; 6; 5].
+
+Lemma ex_defs_ok_l : defs_ok ex_defs ex_rq /\ defs_group_dag ex_defs.
+Proof.
+  assert (H : defs_ok ex_defs ex_rq) by (apply defs_okb_sound; vm_compute; reflexivity).
+  split; [exact H|]. apply defs_group_dagb_sound; [exact (proj1 H) | vm_compute; reflexivity].
+Qed.
